@@ -76,6 +76,19 @@ CLAIMED["C15"] = (
     "DESIGN.md §3 C15",
 )
 
+CLAIMED["C13"] = (
+    "constant-table agreement: the id regex is parsed from its source constant with re._parser and compared piecewise (group order, separator literals, character classes) with the printer's AST and the parser's group reads / conversions / constructor argument order (reaching definitions); solution-id format string vs reader split/strip/slicing and enum tables",
+    "Decides that ScenarioID.__str__ emits the components in the grammar's order with the grammar's separators, prefix and alphabets; that from_benchmark_id reads every named group, converts numeric ones with int, unwraps single prediction ids and passes each to the constructor parameter of the same meaning with fullmatch; that the solution id has as many ':'-separated segments, in the same order, as the reader expects, list form and brackets agree, the scenario-id alphabet is disjoint from the meta characters, vehicle id = model name + single-digit type value matches the [:-1]/[-1] slicing and accepted lengths, cost id = enum name. Value-level ambiguities (a one-element prediction list prints like a scalar) are not decided.",
+    "Trusts re._parser's reading of the pattern and iso3166 for country codes.",
+    "DESIGN.md §2 E-TABLE, §3 C13",
+)
+CLAIMED["C14"] = (
+    "constant-table agreement (ast.literal_eval of the enum tables) against each other, the dataclass fields of the reader's class table and the parsed solution XSD; formatter classification of the writer's text expressions",
+    "Decides for all 7 trajectory types that StateFields/XMLStateFields/StateType/TrajectoryType are keyed alike, equally long and index-aligned (name correspondence per position), that the XML names, state/trajectory element names, header attributes and integer-typed elements equal the solution schema's for the 6 types it defines, that the reader's class table covers every state type with classes owning all fields (so what can be written can be read), that values are written with the shortest round-trip repr and parsed with float()/int() ('time' only), states are sorted by time step, and date/computation-time formats are mutually inverse. Numeric bit-identity follows from repr round-tripping, which is trusted.",
+    "Trusts str(np.float64)/float() round-tripping, xml.etree, and the parsed XSD.",
+    "DESIGN.md §2 E-TABLE/E-NUMFMT, §3 C14",
+)
+
 NOT_APPLICABLE = {
     "C17": "modular arithmetic over runtime integers (%, cumsum, argmax): no sound static argument in reach; the only structural part (memo freshness) is decided under C11, and 'TrafficLight delegates to its cycle' is sufficient but not necessary, so a rule on it would fire on behaviour-preserving edits",
 }
